@@ -8,7 +8,9 @@ EvenTag(m) == m \in {4, 6, 8, 10, 12, 14, 16}
 Expected(e) ==
   CASE e.mode = "gcm" -> IF Len(e.nonce) >= 1 /\ e.maclen \in 4..16 /\ Len(e.key) \in {16, 24, 32}
                          THEN GcmOpen(e.key, e.nonce, e.aad, e.ct, e.tag, e.maclen) ELSE Reject
-    [] e.mode = "ccm" -> IF Len(e.nonce) \in 7..13 /\ EvenTag(e.maclen) THEN CcmOpen(e.key, e.nonce, e.aad, e.ct, e.tag, e.maclen) ELSE Reject
+    [] e.mode = "ccm" -> IF Len(e.nonce) \in 7..13 /\ EvenTag(e.maclen)
+                              /\ (e.decl => (Len(e.ct) = e.declM /\ Len(e.aad) = e.declA))     \* a message shorter or longer than announced is not the announced one
+                         THEN CcmOpen(e.key, e.nonce, e.aad, e.ct, e.tag, e.maclen) ELSE Reject
     [] e.mode = "eax" -> IF Len(e.nonce) >= 1 /\ e.maclen \in 2..16 THEN EaxOpen(e.key, e.nonce, e.aad, e.ct, e.tag, e.maclen) ELSE Reject
     [] e.mode = "siv" -> IF e.nonce_present /\ Len(e.nonce) = 0 THEN Reject
                          ELSE SivOpen(e.key, (IF e.aad_present THEN <<e.aad>> ELSE <<>>) \o (IF e.nonce_present THEN <<e.nonce>> ELSE <<>>), e.ct, e.tag)
@@ -16,7 +18,14 @@ Expected(e) ==
     [] e.mode = "chacha" -> IF Len(e.nonce) \in {8, 12, 24} THEN CP!ChaChaOpen(e.key, e.nonce, e.aad, e.ct, e.tag) ELSE Reject
     [] e.mode = "kw" -> KwOpen(e.key, e.ct)
     [] e.mode = "kwp" -> KwpOpen(e.key, e.ct)
+\* api "twice": another tag was offered to verify() first on the same object; its verdict is judged too
+PreVerdict(e) == IF e.api # "twice" \/ e.pre = "none" THEN "ok" ELSE
+   LET r == Expected([e EXCEPT !.tag = e.pre_tag]) IN
+   IF e.pre = "accepted" THEN (IF r[1] = "ok" THEN "ok" ELSE "a first verify() accepted a tag that is not the defined one")
+   ELSE IF e.pre = "ValueError" THEN (IF r[1] = "ok" THEN "a first verify() rejected the defined tag" ELSE "ok")
+   ELSE "a first verify() raised " \o e.pre
 Verdict(e) == LET r == Expected(e) IN
+   IF PreVerdict(e) # "ok" THEN PreVerdict(e) ELSE
    IF e.out = "ok" THEN (IF r[1] # "ok" THEN "accepted a tuple the standard rejects"
                          ELSE IF r[2] # e.pt THEN "accepted but returned a plaintext that is not the defined one" ELSE "ok")
    ELSE IF e.out = "ValueError" THEN (IF r[1] = "ok" THEN "rejected the authentic tuple" ELSE "ok")
